@@ -53,6 +53,7 @@ PLAN = {
 }
 
 SERVER_IP = "10.0.0.2"
+NAME_MODE_P = 0.0  # set by checks.c03 (variant asyncio_name)
 SERVER_PORT = 4433
 SERVER_ADDR = (SERVER_IP, SERVER_PORT)
 
@@ -177,6 +178,10 @@ def draw_script(ch, cfg):
         p = {"index": i}
         p["start"] = horizon * s.choose(8) / 16.0
         p["wait_connected"] = not (s.chance(0.5) if races else s.chance(0.15))
+        # how the client names the server: "explicit" sets configuration.server_name, "default-host" leaves it to
+        # connect(), which must then authenticate the HOST it was given (an IP literal the certificate does not
+        # cover): only drawn when a caller asks for it (checks.c03, variant asyncio_name)
+        p["name_mode"] = "default-host" if NAME_MODE_P and s.chance(NAME_MODE_P) else "explicit"
         p["max_data"] = (1048576, 1048576, 3000, 30000)[s.choose(4)]
         ops = []
         for _ in range(1 + s.choose(6)):
@@ -276,6 +281,11 @@ def observed_protocol_class():
                 h.on_terminated(self, event)
             elif isinstance(event, events.HandshakeCompleted):
                 self.v_handshake = True
+                if self.v_role == "client" and h.plans[self.v_owner].get("name_mode") == "default-host":
+                    h.flag(Violation("c19.authenticity", "completed-for-host-not-in-certificate",
+                                     "client %d called connect(%r, ...) without configuration.server_name and reported "
+                                     "HandshakeCompleted although the server's certificate is only valid for localhost / "
+                                     "127.0.0.1" % (self.v_owner, SERVER_IP)))
             h.loop.log("ev", self.v_role, self.v_n, name, len(getattr(event, "data", b"") or b""))
             super().quic_event_received(event)
 
@@ -614,7 +624,8 @@ class Harness:
                 is_client=True, alpn_protocols=["verif"], idle_timeout=cfg["client_idle"][i],
                 max_data=plan["max_data"], congestion_control_algorithm=cfg["cc"])
             conf.load_verify_locations(cafile=fixtures.ca_path())
-            conf.server_name = "localhost"
+            if plan.get("name_mode") != "default-host":
+                conf.server_name = "localhost"
             factory = functools.partial(observed_protocol_class(), harness=self, role="client", owner=i)
             if not plan["wait_connected"]:
                 self.probes["connect_without_wait_connected"] += 1
